@@ -12,7 +12,7 @@ mkdir -p "$dst"; cp "$src/patch.diff" "$src/demo.py" "$src/meta.json" "$dst/"
 # the patch must touch library source only
 if grep '^+++ ' "$dst/patch.diff" | grep -qv '^+++ b/rig/'; then echo "PATCH touches files outside rig/:"; grep '^+++ ' "$dst/patch.diff"; fi
 base=/tmp/seedwork/base_tests.txt
-runtests() { (cd "$1" && PYTHONPATH="$1" timeout 900 /venv/bin/python -m pytest -q -p no:cacheprovider --timeout=900 --continue-on-collection-errors -p no:randomly 2>&1 | grep -E '^(FAILED|ERROR)|passed|failed' | sed 's/ in [0-9.]*s.*//' | sort); }
+runtests() { (cd "$1" && PYTHONPATH="$1" timeout 900 /venv/bin/python -m pytest -q -p no:cacheprovider --timeout=900 --continue-on-collection-errors -p no:randomly 2>&1 | grep -E '^(FAILED|ERROR)|passed|failed' | sed "s/ in [0-9.]*s.*//; s/, [0-9]* warnings//" | sort); }
 [ -f "$base" ] || runtests /repo > "$base"
 tmp=$(mktemp -d /tmp/rigconf-XXXXXX)
 rsync -a --exclude .git --exclude __pycache__ /repo/ "$tmp/"
